@@ -14,3 +14,7 @@ TECHNIQUE = "contract-based deductive verification (format-symbolic proof = self
 UNITS = [OD.unit_ods_rows().also("C17"), XL.unit_excel_rows().also("C17"), RDL.unit_delimited_rows().also("C17"), STO.unit_attribute_existence(), STO.unit_auto_rows(), VIO.unit_raw_rows(), F.unit_validated(), IF.unit_cid_read(), D.unit_dataformat_init(), STO.unit_storage_sweep()]
 from contracts import fieldtypes as FT
 UNITS += [FT.unit_decimal_init().also("C17"), FT.unit_integer_init().also("C17"), FT.unit_datetime_regex_pattern().also("C17"), IF.unit_cid_init()]
+from contracts import fields as F2
+UNITS += [F2.unit_validate_characters().also("C17"), FT.unit_datetime_init().also("C17")]
+from props import _groups as _G
+UNITS = _G.with_groups(PROPERTY, UNITS, _G.READERS, _G.VALIDATION, _G.CID, _G.FIELD_DECLS, _G.FIELD_VALUES)
